@@ -204,10 +204,17 @@ func RunC08(st *simcore.Stream, tier_, leg string, logOn bool, res *simcore.Resu
 			cf()
 			w.WaitQuiet()
 			served = e.Delivered > 0
+			if !served {
+				// a secure channel whose two ends disagree about the session (the adversary made one
+				// side drop it) heals by its own timers: keep-alive timeout, then a new handshake, at
+				// the latest when the session is rejected. Tell promises no delivery meanwhile.
+				zsimrt.Sleep([]time.Duration{20 * time.Second, time.Minute, 200 * time.Second, 0}[try])
+				w.WaitQuiet()
+			}
 		}
 		res.Checks++
 		if !served {
-			res.Violate(w.step(), "stopped-serving", "after the adversarial phase four valid messages in a row were not delivered on a fault-free network").With("stack", spec)
+			res.Violate(w.step(), "stopped-serving", "after the adversarial phase four valid messages spread over five simulated minutes (longer than every protocol timer) were not delivered on a fault-free network").With("stack", spec)
 		} else if served {
 			res.Probe("still-serving-afterwards")
 		}
